@@ -10,7 +10,7 @@ THEOREMS = ["GrpcProofs.C35." + t for t in (
     "cse_underflow_counterexample",
     "epshard_aggregate_precedence", "epshard_every_push_ok", "epshard_channel_view_current",
     "picker_only_delegates_to_children_in_aggregate_state",
-    "rr_fair_partial", "rr_fair_children_partial", "rr_wrap_counterexample",
+    "rr_fair_partial", "rr_fair_children_partial", "rr_fair_superseded_partial", "rr_wrap_counterexample",
     "wagg_counters_track_children", "wagg_aggregate_precedence")]
 DESIGN_REF = "DESIGN.md section 8, C35"
 TECHNIQUE = ("Lean 4 theorems (list induction over transition histories, BitVec 64 counter arithmetic, closed-form residue "
@@ -23,7 +23,8 @@ LEVEL_TEXT = ("Machine-checked Lean proofs, for every history of child additions
               "children in the aggregate state, every Pick delegates to one of them, and k consecutive picks not crossing the "
               "uint32 index wrap give each child floor(k/n) or ceil(k/n); the wrap counterexample (F8) is proved and replayed; for "
               "every history of weighted_target's aggregator (Add/Remove/UpdateState/UpdateWeight/Pause/Resume) that its evaluator's "
-              "counters equal the counts of the children's counted states and every state it reports is their precedence-rule state.")
+              "counters equal the counts of the children's counted states and every state it reports is their precedence-rule state; "
+              "superseded endpointsharding pickers that are still picked on keep their own fair rotation (rr_fair_superseded_partial).")
 LEVEL_NOTE = ("Trusted: Lean kernel; hand models lean/GrpcModel/Model/{LbConnState,EpShard}.lean tied by differential runs. "
               "Readings: (1) 'children' of ConnectivityStateEvaluator are what its caller passes: the theorem is for legal histories "
               "(the evaluator is told each child's real previous state); an illegal call underflows a counter "
@@ -41,7 +42,9 @@ RULE = ("cse: random legal histories (add/change/remove over a child list, <= 80
         "precedence rule, plus raw RecordTransition streams incl. illegal ones (counters compared with the model). s_epshard: "
         "random op sequences (<= 40 ops) of resolver updates (0-6 endpoints out of 7, duplicates, children that report "
         "R/C/I/T/S or nothing during the update, child errors), child state reports (also from removed children), "
-        "ResolverError, ExitIdle, Close, runs of Pick (0..3n+2) and index-wrap picks (start index near 2^32). wagg: a directed "
+        "ResolverError, ExitIdle, Close, runs of Pick (0..3n+2), index-wrap picks (start index near 2^32) and picks on SUPERSEDED "
+        "pickers interleaved with picks on the current one (random, plus a directed family: 2-5 children x kind of picker update x "
+        "interleaving pattern a:b); every picker generation's own consecutive picks are checked for floor/ceil. wagg: a directed "
         "family over every way a child's counted state can differ from its reported one (TF->C, TF->C->C, R->TF->C, ...) x what "
         "happens to it next (removed, new state, re-weighted) x the state of the other children (T/I/C/none), plus random "
         "histories (<= 40 ops, 2-6 ids) biased to the retry cycle TF->CONNECTING with adds/removes/weights/pause/resume; counters "
@@ -108,6 +111,9 @@ def gen_ep(rng, n_cases, maxlen, wrap_rate):
                 ops.append("exitidle %d" % rng.randrange(1000))
             elif x < 0.67:
                 ops.append("close")
+            elif x < 0.72:
+                # a superseded picker is still in use while the current one is (RPCs that fetched it before the update)
+                ops.append("pickold %d %d" % (rng.choice([0, 0, 0, 1, 2]), rng.choice([1, 1, 2, 3, max(1, live)])))
             elif x < 1 - wrap_rate:
                 n = max(1, live)
                 ops.append("pick %d" % rng.choice([0, 1, n - 1, n, n + 1, 2 * n, 2 * n + 1, 3 * n + 2, rng.randrange(0, 3 * n + 3)]))
@@ -178,6 +184,23 @@ def wagg_directed():
                 k += 1
 
 
+def old_picker_directed():
+    """two (or three) picker generations in use at once: every interleaving pattern `a picks on the current picker, b picks on a
+    superseded one`, for 2-5 children, after each kind of picker update (child re-report, resolver update, ResolverError)"""
+    k = 0
+    for n in (2, 3, 4, 5):
+        base = ["new 1", "update 0 " + ",".join("%d/R/0" % i for i in range(n))]
+        for upd in (["cs 1 R 1 0"], ["update 1 " + ",".join("%d/R/0" % i for i in range(n))], ["reserr 2"], ["cs 1 R 1 1", "cs 2 R 1 2"]):
+            for a, b in ((1, 1), (1, 2), (1, n - 1), (1, n), (2, 1), (1, n + 1), (2, n)):
+                ops = base + ["pick 1"] + upd
+                for _ in range(n + 1):
+                    ops += ["pick %d" % a, "pickold 0 %d" % b]
+                if len(upd) > 1:
+                    ops += ["pickold 1 %d" % n, "pick %d" % n]
+                yield Case("s_epshard", ops, "old-picker-%d" % k)
+                k += 1
+
+
 def directed():
     # F8 witness (DESIGN.md section 7): n = 3, index 2^32-3, three picks
     yield Case("s_epshard", ["new 1", "update 0 0/R/0,1/R/0,2/R/0", "wrappick %d 3" % (WRAP - 3)], "f8-witness")
@@ -199,6 +222,8 @@ def gen(rng, tier):
     for c in directed():
         yield c
     for c in wagg_directed():
+        yield c
+    for c in old_picker_directed():
         yield c
     for c in gen_wagg(rng, {"quick": 400, "thorough": 8000, "search": 4000}[tier], 40):
         yield c
